@@ -615,8 +615,20 @@ func (x *codecExec) stmt(st ast.Stmt) []codecTok {
 						if be, ok := ast.Unparen(s.Cond).(*ast.BinaryExpr); ok && be.Op == token.GTR && types.ExprString(be.Y) == types.ExprString(se.High) {
 							if call, ok := ast.Unparen(be.X).(*ast.CallExpr); ok && len(call.Args) == 1 && ObjOf(x.info, call.Args[0]) == ObjOf(x.info, a.Lhs[0]) {
 								if id, ok := ast.Unparen(call.Fun).(*ast.Ident); ok && id.Name == "len" {
-									x.bounds = append(x.bounds, "clamp if "+condSym)
-									return out
+									// only when nothing has looked at the text yet: a cut after its length was taken (or written)
+									// separates prefix and payload
+									vo := ObjOf(x.info, a.Lhs[0])
+									usedBefore := false
+									ast.Inspect(x.f.Body, func(m ast.Node) bool {
+										if u, ok := m.(*ast.Ident); ok && x.info.Uses[u] == vo && u.Pos() < s.Pos() {
+											usedBefore = true
+										}
+										return true
+									})
+									if !usedBefore {
+										x.bounds = append(x.bounds, "clamp if "+condSym)
+										return out
+									}
 								}
 							}
 						}
